@@ -95,6 +95,12 @@ fn g1_well_formed(b: &[u8]) -> Result<G1Affine, String> {
     Ok(p)
 }
 
+/// fuzz campaigns skip the expensive use of accepted provers/parameters
+fn light() -> bool {
+    static L: OnceLock<bool> = OnceLock::new();
+    *L.get_or_init(|| std::env::var("VERIF_FUZZ_LIGHT").is_ok())
+}
+
 struct CompressedBound {
     legit_peak: usize,
 }
@@ -152,11 +158,12 @@ pub fn oracle(target: u8, base: u8, bytes: &[u8]) -> Result<bool, Fail> {
                 })?;
             }
             // use it
-            let program = b.program.clone();
-            let used = no_panic(&format!("accepted-value-unusable:{t}"), || {
-                p.prove(&mut sys::rng(5), &ProgramCircuit::new(program)).map(|_| ())
-            })?;
-            let _ = used;
+            if !light() {
+                let program = b.program.clone();
+                let _ = no_panic(&format!("accepted-value-unusable:{t}"), || {
+                    p.prove(&mut sys::rng(5), &ProgramCircuit::new(program)).map(|_| ())
+                })?;
+            }
             let _ = no_panic(&format!("accepted-value-unusable:{t}"), || p.to_bytes())?;
             Ok(true)
         }
@@ -220,10 +227,12 @@ pub fn oracle(target: u8, base: u8, bytes: &[u8]) -> Result<bool, Fail> {
                 g1_well_formed(&bytes[o..o + 48]).map_err(|e| Fail::new("accepted-ill-formed:commit-key-point", format!("power at {o}: {e}")))?;
                 o += 48;
             }
-            let program = b.program.clone();
-            let _ = no_panic(&format!("accepted-value-unusable:{t}"), || {
-                sys::compile(&pp, b"x", &program, sys::Route::Instance).map(|_| ())
-            })?;
+            if !light() {
+                let program = b.program.clone();
+                let _ = no_panic(&format!("accepted-value-unusable:{t}"), || {
+                    sys::compile(&pp, b"x", &program, sys::Route::Instance).map(|_| ())
+                })?;
+            }
             Ok(true)
         }
         _ => {
@@ -280,32 +289,41 @@ fn check(ctx: &Ctx, s: &Script) -> PResult {
     Ok(())
 }
 
-/// replay tier: saved fuzzer inputs (raw bytes) per target
+/// replay tier: committed seed corpus and saved fuzzer inputs
 fn corpus_replay(ctx: &Ctx) {
     let root = std::path::Path::new(crate::runner::VERIF_ROOT).join("corpus");
-    for (ti, t) in TARGETS.iter().enumerate() {
-        let dir = root.join(t);
-        let Ok(rd) = std::fs::read_dir(&dir) else { continue };
+    for dir in ["decoders", "raw_proof", "raw_compressed"] {
+        let Ok(rd) = std::fs::read_dir(root.join(dir)) else { continue };
         let mut files: Vec<_> = rd.filter_map(|e| e.ok()).map(|e| e.path()).collect();
         files.sort();
         for f in files {
-            let Ok(data) = std::fs::read(&f) else { continue };
-            ctx.eval(&format!("corpus replay {t}"));
-            // corpus files are fuzzer inputs: a script, or raw bytes when the
-            // name starts with "raw-"
-            let raw = f.file_name().map(|n| n.to_string_lossy().starts_with("raw-")).unwrap_or(false);
-            let (base, bytes) = if raw {
-                (0u8, data)
-            } else {
-                let mut s = mutate::script_from_bytes(&data);
-                s.target = ti as u8;
-                (s.base, mutate::run_script(&s))
-            };
-            if let Err(fail) = oracle(ti as u8, base, &bytes) {
+            ctx.eval(&format!("corpus replay {dir}"));
+            if let Err(fail) = replay_corpus_file(&f) {
                 ctx.violation("decoders", &fail, json!({"corpus_file": f.display().to_string()}));
             }
         }
     }
+}
+
+/// replay one fuzzer input file (target inferred from its directory name)
+pub fn replay_corpus_file(path: &std::path::Path) -> Result<(), Fail> {
+    let data = std::fs::read(path).map_err(|e| Fail::new("replay-read", format!("{e}")))?;
+    let dir = path.parent().and_then(|p| p.file_name()).map(|n| n.to_string_lossy().to_string()).unwrap_or_default();
+    let name = path.file_name().map(|n| n.to_string_lossy().to_string()).unwrap_or_default();
+    if dir.starts_with("raw_proof") {
+        return oracle(T_PROOF, 0, &data).map(|_| ());
+    }
+    if dir.starts_with("raw_compressed") {
+        let base = data.first().copied().unwrap_or(0);
+        return oracle(mutate::T_COMPRESSED, base, data.get(1..).unwrap_or(&[])).map(|_| ());
+    }
+    if name.starts_with("raw-") {
+        let ti = TARGETS.iter().position(|t| dir.starts_with(t)).unwrap_or(0);
+        return oracle(ti as u8, 0, &data).map(|_| ());
+    }
+    let s = mutate::script_from_bytes(&data);
+    let bytes = mutate::run_script(&s);
+    oracle(s.target % 5, s.base, &bytes).map(|_| ())
 }
 
 pub fn props() -> Vec<(Box<dyn PropDyn>, u32, u32)> {
@@ -314,6 +332,29 @@ pub fn props() -> Vec<(Box<dyn PropDyn>, u32, u32)> {
 
 pub fn sweeps(ctx: &Ctx) {
     corpus_replay(ctx);
+    // fuzz-campaign crash artefacts and summary (written by tools/fuzz_campaign.sh)
+    let root = std::path::Path::new(crate::runner::VERIF_ROOT);
+    for dir in ["decoders", "raw_proof", "raw_compressed"] {
+        let d = root.join("corpus").join(format!("{dir}-crashes"));
+        if let Ok(rd) = std::fs::read_dir(&d) {
+            let mut files: Vec<_> = rd.filter_map(|e| e.ok()).map(|e| e.path()).collect();
+            files.sort();
+            for f in files {
+                ctx.eval("fuzz crash artefact replay");
+                if let Err(fail) = replay_corpus_file(&f) {
+                    ctx.violation("decoders", &fail, json!({"corpus_file": f.display().to_string()}));
+                }
+            }
+        }
+    }
+    if let Ok(b) = std::fs::read(root.join("harness/target/fuzz-summary.json")) {
+        if let Ok(v) = serde_json::from_slice::<serde_json::Value>(&b) {
+            if let Some(n) = v.get("total_execs").and_then(|x| x.as_u64()) {
+                ctx.add_evals(n);
+            }
+            ctx.extra("libfuzzer_campaign", v);
+        }
+    }
 }
 
 pub fn describe(ctx: &Ctx) {
